@@ -10,7 +10,7 @@ use std::collections::BTreeSet;
 macro_rules! harness {
     ($name:ident, $body:expr) => {
         #[kani::proof]
-        #[kani::unwind(13)]
+        #[kani::unwind(100)]
         #[kani::stub(crate::parser::parse_value, no_parse_value)]
         #[kani::stub(crate::de::from_slice, no_from_slice)]
         #[kani::stub(std::ptr::drop_in_place, noop_drop)]
@@ -97,11 +97,599 @@ pub fn del_index(d: &B, buf: &mut Vec<u8>) {
     kani::cover!(eff_index(idx, n).is_none() && n > 0, "out of range: no-op");
 }
 
+
+// ---- array_insert: position clamped into 0..=len, negative from the end; a non-array is a one-element list
+pub fn arr_insert(d: &B, new: &B, buf: &mut Vec<u8>) {
+    let root = d.node(d.root);
+    let pos: i32 = kani::any();
+    kani::assume(pos != i32::MIN);
+    let r = array_insert(d.bytes(), pos, new.bytes(), buf);
+    let (mut items, mut n) = kids_blobs(d, d.root);
+    if root.kind != K_ARR {
+        items[0] = d.root_blob();
+        n = 1;
+    }
+    let l = n as i64;
+    let j = if pos < 0 { l + pos as i64 } else { pos as i64 };
+    let p = if j < 0 { 0 } else if j > l { l } else { j } as usize;
+    let nb = new.root_blob();
+    let mut k = 0;
+    while k <= n {
+        if p == k {
+            let mut out = [nb; MAXW + 1];
+            let mut i = 0;
+            while i < k {
+                out[i] = items[i];
+                i += 1;
+            }
+            out[k] = nb;
+            i = k;
+            while i < n {
+                out[i + 1] = items[i];
+                i += 1;
+            }
+            expect_ok(r.clone(), buf, &x_arr(&out[..n + 1]));
+        }
+        k += 1;
+    }
+    kani::cover!(pos < 0 && p > 0, "negative position inside the array");
+    kani::cover!(pos as i64 > l, "position clamped to the end");
+}
+
+// ---- delete_by_name: object member, or every string element equal to the name
+pub fn del_name(d: &B, nl: usize, buf: &mut Vec<u8>) {
+    let root = d.node(d.root);
+    let name = Name::of_len(nl);
+    let r = delete_by_name(d.bytes(), name.as_str(), buf);
+    if root.kind != K_ARR && root.kind != K_OBJ {
+        expect_err(r, buf, Error::InvalidJsonType);
+        return;
+    }
+    let (items, n) = kids_blobs(d, d.root);
+    let keys = kids_keys(d, d.root);
+    // which children go: symbolic pattern, case split over the 2^n patterns keeps layouts concrete
+    let mut pat = 0usize;
+    let mut i = 0;
+    while i < n {
+        let c = d.node(root.kids[i]);
+        let gone = if root.kind == K_OBJ { name.eq_key(d, root.koff[i], root.klen[i]) } else { c.kind == K_STR && name.eq_key(d, c.off, c.len) };
+        if gone {
+            pat |= 1 << i;
+        }
+        i += 1;
+    }
+    let mut q = 0usize;
+    while q < (1 << n) {
+        if pat == q {
+            let mut oi = [items[0]; MAXW];
+            let mut ok = [keys[0]; MAXW];
+            let mut m = 0;
+            let mut i = 0;
+            while i < n {
+                if q & (1 << i) == 0 {
+                    oi[m] = items[i];
+                    ok[m] = keys[i];
+                    m += 1;
+                }
+                i += 1;
+            }
+            let e = if root.kind == K_OBJ { x_obj(&ok[..m], &oi[..m]) } else { x_arr(&oi[..m]) };
+            expect_ok(r.clone(), buf, &e);
+        }
+        q += 1;
+    }
+    kani::cover!(pat != 0, "something deleted");
+    kani::cover!(pat == 0 && n > 0, "nothing deleted");
+}
+
+// ---- object_insert: new member in key order; existing key replaced only with the update flag
+pub fn obj_insert(d: &B, new: &B, nl: usize, buf: &mut Vec<u8>) {
+    let root = d.node(d.root);
+    let name = Name::of_len(nl);
+    let upd: bool = kani::any();
+    let r = object_insert(d.bytes(), name.as_str(), new.bytes(), upd, buf);
+    if root.kind != K_OBJ {
+        expect_err(r, buf, Error::InvalidObject);
+        return;
+    }
+    let (items, n) = kids_blobs(d, d.root);
+    let keys = kids_keys(d, d.root);
+    let nk = KeyB::of(&name);
+    let nb = new.root_blob();
+    // position: number of keys smaller than the new key; dup: equal to the key at that position
+    let mut pos = 0;
+    let mut dup = false;
+    let mut i = 0;
+    while i < n {
+        match keys[i].cmp(&nk) {
+            core::cmp::Ordering::Less => pos += 1,
+            core::cmp::Ordering::Equal => dup = true,
+            _ => {}
+        }
+        i += 1;
+    }
+    if dup && !upd {
+        expect_err(r, buf, Error::ObjectDuplicateKey);
+        return;
+    }
+    let mut k = 0;
+    while k <= n {
+        if pos == k {
+            let mut oi = [nb; MAXW + 1];
+            let mut ok = [nk; MAXW + 1];
+            let mut i = 0;
+            while i < k {
+                oi[i] = items[i];
+                ok[i] = keys[i];
+                i += 1;
+            }
+            let skip = if dup { 1 } else { 0 };
+            // with dup (case split below) the old member at k is replaced
+            let mut s = 0;
+            while s <= 1 {
+                if skip == s {
+                    let mut i = k + s;
+                    let mut m = k + 1;
+                    while i < n {
+                        oi[m] = items[i];
+                        ok[m] = keys[i];
+                        m += 1;
+                        i += 1;
+                    }
+                    expect_ok(r.clone(), buf, &x_obj(&ok[..m], &oi[..m]));
+                }
+                s += 1;
+            }
+        }
+        k += 1;
+    }
+    kani::cover!(dup && upd, "existing key updated");
+    kani::cover!(!dup && pos > 0 && pos < n, "inserted between two keys");
+}
+
+// ---- object_delete / object_pick by key set
+pub fn obj_del_pick(d: &B, l0: usize, l1: usize, pick: bool, buf: &mut Vec<u8>) {
+    let root = d.node(d.root);
+    let (n0, n1) = (Name::of_len(l0), Name::of_len(l1));
+    let mut set = BTreeSet::new();
+    set.insert(n0.as_str());
+    set.insert(n1.as_str());
+    let r = if pick { object_pick(d.bytes(), &set, buf) } else { object_delete(d.bytes(), &set, buf) };
+    core::mem::forget(set);
+    if root.kind != K_OBJ {
+        expect_err(r, buf, Error::InvalidObject);
+        return;
+    }
+    let (items, n) = kids_blobs(d, d.root);
+    let keys = kids_keys(d, d.root);
+    let mut pat = 0usize;
+    let mut i = 0;
+    while i < n {
+        let hit = n0.eq_key(d, root.koff[i], root.klen[i]) || n1.eq_key(d, root.koff[i], root.klen[i]);
+        if hit == pick {
+            pat |= 1 << i; // kept
+        }
+        i += 1;
+    }
+    let mut q = 0usize;
+    while q < (1 << n) {
+        if pat == q {
+            let mut oi = [items[0]; MAXW];
+            let mut ok = [keys[0]; MAXW];
+            let mut m = 0;
+            let mut i = 0;
+            while i < n {
+                if q & (1 << i) != 0 {
+                    oi[m] = items[i];
+                    ok[m] = keys[i];
+                    m += 1;
+                }
+                i += 1;
+            }
+            expect_ok(r.clone(), buf, &x_obj(&ok[..m], &oi[..m]));
+        }
+        q += 1;
+    }
+    kani::cover!(pat != 0 && pat != (1 << n) - 1, "some members kept, some dropped");
+}
+
+// ---- concat
+fn wrap_or_elems(d: &B) -> ([Blob; MAXW], usize) {
+    let root = d.node(d.root);
+    if root.kind == K_ARR {
+        kids_blobs(d, d.root)
+    } else {
+        let mut o = [d.root_blob(); MAXW];
+        o[0] = d.root_blob();
+        (o, 1)
+    }
+}
+pub fn concat_check(a: &B, b: &B, buf: &mut Vec<u8>) {
+    let (ra, rb) = (a.node(a.root), b.node(b.root));
+    let r = concat(a.bytes(), b.bytes(), buf);
+    if ra.kind == K_OBJ && rb.kind == K_OBJ {
+        // merge, right side wins; both sides have <= 2 members here
+        let (ia, na) = kids_blobs(a, a.root);
+        let (ib, nb) = kids_blobs(b, b.root);
+        let (ka, kb) = (kids_keys(a, a.root), kids_keys(b, b.root));
+        // left members survive unless the right side has the key; position of each right key among survivors
+        // case split on the complete order pattern: for each left key, its relation to each right key
+        let mut pat = 0usize;
+        let mut i = 0;
+        while i < na {
+            let mut j = 0;
+            while j < nb {
+                let c = match ka[i].cmp(&kb[j]) { core::cmp::Ordering::Less => 0, core::cmp::Ordering::Equal => 1, _ => 2 };
+                pat = pat * 3 + c;
+                j += 1;
+            }
+            i += 1;
+        }
+        let total = { let mut t = 1; let mut z = 0; while z < na * nb { t *= 3; z += 1; } t };
+        let mut q = 0usize;
+        while q < total {
+            if pat == q {
+                // decode relation digits (concrete q)
+                let mut rel = [[0usize; MAXW]; MAXW];
+                let mut t = q;
+                let mut i = na;
+                while i > 0 {
+                    let mut j = nb;
+                    while j > 0 {
+                        rel[i - 1][j - 1] = t % 3;
+                        t /= 3;
+                        j -= 1;
+                    }
+                    i -= 1;
+                }
+                // merge two sorted lists with the known relations
+                let mut oi = [ia[0]; 2 * MAXW];
+                let mut ok = [ka[0]; 2 * MAXW];
+                let mut m = 0;
+                let (mut x, mut y) = (0, 0);
+                while x < na || y < nb {
+                    if x < na && y < nb {
+                        let c = rel[x][y];
+                        if c == 0 {
+                            oi[m] = ia[x]; ok[m] = ka[x]; x += 1;
+                        } else if c == 1 {
+                            oi[m] = ib[y]; ok[m] = kb[y]; x += 1; y += 1;
+                        } else {
+                            oi[m] = ib[y]; ok[m] = kb[y]; y += 1;
+                        }
+                    } else if x < na {
+                        oi[m] = ia[x]; ok[m] = ka[x]; x += 1;
+                    } else {
+                        oi[m] = ib[y]; ok[m] = kb[y]; y += 1;
+                    }
+                    m += 1;
+                }
+                expect_ok(r.clone(), buf, &x_obj(&ok[..m], &oi[..m]));
+            }
+            q += 1;
+        }
+        return;
+    }
+    let (ea, na) = wrap_or_elems(a);
+    let (eb, nb) = wrap_or_elems(b);
+    let mut out = [ea[0]; 2 * MAXW];
+    let mut i = 0;
+    while i < na {
+        out[i] = ea[i];
+        i += 1;
+    }
+    i = 0;
+    while i < nb {
+        out[na + i] = eb[i];
+        i += 1;
+    }
+    expect_ok(r, buf, &x_arr(&out[..na + nb]));
+}
+
+// ---- strip_nulls: null-valued object members go, recursively; nulls in arrays stay
+fn stripped(d: &B, id: usize) -> Blob {
+    let x = d.node(id);
+    if x.kind == K_ARR {
+        let mut oi = [d.blob(id); MAXW];
+        let mut i = 0;
+        while i < x.cnt {
+            oi[i] = stripped(d, x.kids[i]);
+            i += 1;
+        }
+        x_arr(&oi[..x.cnt])
+    } else if x.kind == K_OBJ {
+        let mut oi = [d.blob(id); MAXW];
+        let mut ok = [KeyB { b: [0; 2], n: 0 }; MAXW];
+        let mut m = 0;
+        let mut i = 0;
+        while i < x.cnt {
+            if d.node(x.kids[i]).kind != K_NULL {
+                oi[m] = stripped(d, x.kids[i]);
+                ok[m] = d.keyb(id, i);
+                m += 1;
+            }
+            i += 1;
+        }
+        x_obj(&ok[..m], &oi[..m])
+    } else {
+        d.blob(id)
+    }
+}
+pub fn strip_check(d: &B, buf: &mut Vec<u8>) {
+    let r = strip_nulls(d.bytes(), buf);
+    let e = x_doc(&stripped(d, d.root));
+    expect_ok(r, buf, &e);
+}
+
+// ---- build_array / build_object from parts
+pub fn build_check(a: &B, b: &B, c: &B, buf: &mut Vec<u8>) {
+    let parts: [&[u8]; 3] = [a.bytes(), b.bytes(), c.bytes()];
+    let r = build_array(parts.iter().copied(), buf);
+    expect_ok(r, buf, &x_arr(&[a.root_blob(), b.root_blob(), c.root_blob()]));
+    let mut buf2 = Vec::new();
+    let (k0, k1) = (Name::of_len(1), Name::of_len(2));
+    kani::assume(k0.b[0] < k1.b[0] || (k0.b[0] == k1.b[0])); // k0 (1 byte) <= prefix of k1: k0 < k1 bytewise
+    let items: [(&str, &[u8]); 2] = [(k0.as_str(), a.bytes()), (k1.as_str(), b.bytes())];
+    let r2 = build_object(items.iter().copied(), &mut buf2);
+    expect_ok(r2, &buf2, &x_obj(&[KeyB::of(&k0), KeyB::of(&k1)], &[a.root_blob(), b.root_blob()]));
+    core::mem::forget(buf2);
+}
+
+// ---- delete_by_keypath (one or two elements)
+fn keypath_deleted(d: &B, id: usize, steps: &[(bool, i32, Name)], depth: usize) -> Option<Blob> {
+    // returns the rebuilt container, or None when the path does not apply (document unchanged)
+    let x = d.node(id);
+    let (is_idx, i, ref name) = steps[depth];
+    let last = depth + 1 == steps.len();
+    let (items, n) = kids_blobs(d, id);
+    let keys = kids_keys(d, id);
+    let mut hit: Option<usize> = None;
+    if x.kind == K_ARR && is_idx {
+        hit = eff_index(i, n);
+    } else if x.kind == K_OBJ && !is_idx {
+        let mut k = 0;
+        while k < n {
+            if name.eq_key(d, x.koff[k], x.klen[k]) {
+                hit = Some(k);
+            }
+            k += 1;
+        }
+        if hit.is_none() {
+            // an object is always rebuilt (unchanged content)
+            return Some(d.blob(id));
+        }
+    } else {
+        return None;
+    }
+    let p = hit?;
+    let mut res: Option<Blob> = None;
+    let mut k = 0;
+    while k < n {
+        if p == k {
+            if last {
+                let (oi, m) = without(&items, n, k);
+                let (ok, _) = without(&keys, n, k);
+                res = Some(if x.kind == K_OBJ { x_obj(&ok[..m], &oi[..m]) } else { x_arr(&oi[..m]) });
+            } else {
+                let c = d.node(x.kids[k]);
+                if c.kind == K_ARR || c.kind == K_OBJ {
+                    if let Some(sub) = keypath_deleted(d, x.kids[k], steps, depth + 1) {
+                        let mut oi = items;
+                        oi[k] = sub;
+                        res = Some(if x.kind == K_OBJ { x_obj(&keys[..n], &oi[..n]) } else { x_arr(&oi[..n]) });
+                    }
+                }
+            }
+        }
+        k += 1;
+    }
+    res
+}
+pub fn del_keypath(d: &B, form: usize, buf: &mut Vec<u8>) {
+    let root = d.node(d.root);
+    let (i, j): (i32, i32) = (kani::any(), kani::any());
+    kani::assume(i > -6 && i < 6 && j > -6 && j < 6);
+    let (n, m) = (Name::of_len(1), Name::of_len(1));
+    let p_i = KeyPath::Index(i);
+    let p_j = KeyPath::Index(j);
+    let p_n = KeyPath::Name(Cow::Borrowed(n.as_str()));
+    let p_m = KeyPath::QuotedName(Cow::Borrowed(m.as_str()));
+    let nn = Name { b: n.b, len: 1 };
+    let mm = Name { b: m.b, len: 1 };
+    let (path, steps, cnt): ([&KeyPath; 2], [(bool, i32, Name); 2], usize) = match form {
+        0 => ([&p_i, &p_j], [(true, i, nn), (true, j, mm)], 1),
+        1 => ([&p_n, &p_j], [(false, 0, nn), (true, j, mm)], 1),
+        2 => ([&p_i, &p_j], [(true, i, nn), (true, j, mm)], 2),
+        3 => ([&p_i, &p_n], [(true, i, mm), (false, 0, nn)], 2),
+        4 => ([&p_n, &p_i], [(false, 0, nn), (true, i, mm)], 2),
+        _ => ([&p_n, &p_m], [(false, 0, nn), (false, 0, mm)], 2),
+    };
+    let r = delete_by_keypath(d.bytes(), path[..cnt].iter().copied(), buf);
+    if root.kind != K_ARR && root.kind != K_OBJ {
+        expect_err(r, buf, Error::InvalidJsonType);
+        return;
+    }
+    let e = match keypath_deleted(d, d.root, &steps[..cnt], 0) {
+        Some(b) => b,
+        None => d.root_blob(),
+    };
+    expect_ok(r, buf, &e);
+}
+
+// ================= harness instances
+const D3: [(u8, usize); 3] = [(K_NUM, 2), (K_STR, 1), (K_NULL, 0)];
+fn with_buf(f: impl Fn(&mut Vec<u8>)) {
+    let mut buf = Vec::new();
+    f(&mut buf);
+    core::mem::forget(buf);
+}
+
 //@ props: C06, C07
-//@ timeout: 1200
-//@ harness: c06_delidx_s0
-//@ desc: delete_by_index with a symbolic i32 index (all values except i32::MIN) on [x,y,s]
-//@ fns: delete_by_index, delete_jsonb_by_index, ArrayBuilder::push_raw, ArrayBuilder::build_into, write_entry
-//@ bounds: 3 elements
+//@ timeout: 1800
+//@ harness: c06_delidx_s0, c06_delidx_s2, c06_delidx_s3567
+//@ desc: delete_by_index with a symbolic i32 index (every value except i32::MIN, which C20 covers) on [x,y,s], [x,{k:y},n], {k:x,kk:y}, scalar, [], {}: negative counts from the end, out of range is a no-op copy, a non-array is InvalidJsonType; output byte-identical to the README encoding of the edited tree
+//@ fns: delete_by_index, delete_jsonb_by_index, ArrayBuilder::push_raw, ArrayBuilder::build_into, write_entry, reserve_jentries, replace_jentry
+//@ bounds: <= 3 elements, depth 2
 //@ stubs: parse_value, from_slice -> panic | drop_in_place -> no-op
-harness!(c06_delidx_s0, shapes_split(0, &CLS_T, 2, |d| { let mut buf = Vec::new(); del_index(d, &mut buf); core::mem::forget(buf); }));
+harness!(c06_delidx_s0, shapes_split(0, &D3, 2, |d| with_buf(|b| del_index(d, b))));
+harness!(c06_delidx_s2, with_shape(2, D3[0], D3[1], |d| with_buf(|b| del_index(d, b))));
+harness!(c06_delidx_s3567, split1(4, |k| with_shape(if k == 0 { 3 } else { 4 + k }, D3[0], D3[1], |d| with_buf(|b| del_index(d, b)))));
+
+fn new_doc(k: usize, f: impl Fn(&B)) {
+    match k {
+        0 => f(&B::build(&leaf(K_NUM, 9))),
+        1 => f(&B::build(&leaf(K_NULL, 0))),
+        2 => f(&B::build(&arr(&[leaf(K_STR, 1)]))),
+        _ => f(&B::build(&obj(&[1], &[leaf(K_NUM, 2)]))),
+    }
+}
+//@ props: C06, C07
+//@ timeout: 1800
+//@ harness: c06_arrins_s0, c06_arrins_s1, c06_arrins_s3567
+//@ desc: array_insert with a symbolic i32 position (all but i32::MIN) and a new value that is a number, null, an array or an object: position clamped into 0..=len, negative from the end; a non-array target counts as a one-element list
+//@ fns: array_insert, array_insert_jsonb, ArrayBuilder::build_into, write_entry
+//@ bounds: <= 3 elements before the insertion
+//@ stubs: parse_value, from_slice -> panic | drop_in_place -> no-op
+harness!(c06_arrins_s0, split1(4, |k| new_doc(k, |nw| with_shape(0, D3[0], D3[1], |d| with_buf(|b| arr_insert(d, nw, b))))));
+harness!(c06_arrins_s1, split1(2, |k| new_doc(k * 2, |nw| with_shape(1, D3[0], D3[1], |d| with_buf(|b| arr_insert(d, nw, b))))));
+harness!(c06_arrins_s3567, split2(4, 2, |s, k| new_doc(k * 3, |nw| with_shape(if s == 0 { 3 } else { 4 + s }, D3[0], D3[1], |d| with_buf(|b| arr_insert(d, nw, b))))));
+
+//@ props: C06, C07
+//@ timeout: 1800
+//@ harness: c06_delname_s0, c06_delname_s3, c06_delname_s8, c06_delname_s4567
+//@ desc: delete_by_name with a symbolic name: removes the member of an object, every string element equal to the name from an array ([s,s',s''] of 1-byte strings so that several can match), InvalidJsonType on scalars with nothing written
+//@ fns: delete_by_name, delete_jsonb_by_name, ObjectBuilder::push_raw, ObjectBuilder::build_into, ArrayBuilder::build_into
+//@ bounds: <= 3 members/elements
+//@ stubs: parse_value, from_slice -> panic | drop_in_place -> no-op
+harness!(c06_delname_s0, split1(2, |k| with_shape(0, if k == 0 { (K_STR, 1) } else { (K_NUM, 2) }, (K_STR, 1), |d| with_buf(|b| del_name(d, 1, b)))));
+harness!(c06_delname_s3, shapes_split(3, &D3, 2, |d| with_buf(|b| del_name(d, 1, b))));
+harness!(c06_delname_s8, with_shape(8, D3[0], D3[1], |d| with_buf(|b| del_name(d, 1, b))));
+harness!(c06_delname_s4567, split1(4, |k| with_shape(4 + k, D3[0], D3[1], |d| with_buf(|b| del_name(d, if k == 0 { 0 } else { 1 }, b)))));
+
+//@ props: C06, C07
+//@ timeout: 1800
+//@ harness: c06_objins_s3_l1, c06_objins_s3_l2, c06_objins_s8, c06_objins_other
+//@ desc: object_insert with a symbolic key (1 or 2 bytes), symbolic update flag and a new value (number / array): inserted in key order, an existing key is replaced only with the flag, otherwise ObjectDuplicateKey; InvalidObject on non-objects; nothing written on errors
+//@ fns: object_insert, object_insert_jsonb, iteate_object_keys, ObjectBuilder::build_into
+//@ bounds: <= 3 members before the insertion
+//@ stubs: parse_value, from_slice -> panic | drop_in_place -> no-op
+harness!(c06_objins_s3_l1, split1(2, |k| new_doc(k * 2, |nw| with_shape(3, D3[0], D3[1], |d| with_buf(|b| obj_insert(d, nw, 1, b))))));
+harness!(c06_objins_s3_l2, new_doc(0, |nw| with_shape(3, D3[1], D3[0], |d| with_buf(|b| obj_insert(d, nw, 2, b)))));
+harness!(c06_objins_s8, new_doc(3, |nw| with_shape(8, D3[0], D3[1], |d| with_buf(|b| obj_insert(d, nw, 1, b)))));
+harness!(c06_objins_other, split1(4, |k| new_doc(0, |nw| with_shape([0, 5, 6, 7][k], D3[0], D3[1], |d| with_buf(|b| obj_insert(d, nw, 1, b))))));
+
+//@ props: C06, C07
+//@ timeout: 1800
+//@ harness: c06_objdel_s3, c06_objdel_s8, c06_objpick_s3, c06_objpick_s8, c06_objdelpick_other
+//@ desc: object_delete and object_pick with a set of two symbolic keys (lengths 1 and 2 / 1 and 1): exactly the members whose key is (not) in the set remain, in key order; InvalidObject on non-objects
+//@ fns: object_delete, object_delete_jsonb, object_pick, object_pick_jsonb, ObjectBuilder::build_into
+//@ bounds: <= 3 members; key sets of 2
+//@ stubs: parse_value, from_slice -> panic | drop_in_place -> no-op
+harness!(c06_objdel_s3, shapes_split(3, &D3, 2, |d| with_buf(|b| obj_del_pick(d, 1, 2, false, b))));
+harness!(c06_objdel_s8, with_shape(8, D3[0], D3[1], |d| with_buf(|b| obj_del_pick(d, 1, 1, false, b))));
+harness!(c06_objpick_s3, shapes_split(3, &D3, 2, |d| with_buf(|b| obj_del_pick(d, 1, 2, true, b))));
+harness!(c06_objpick_s8, with_shape(8, D3[0], D3[1], |d| with_buf(|b| obj_del_pick(d, 1, 1, true, b))));
+harness!(c06_objdelpick_other, split2(3, 2, |k, p| with_shape([0, 5, 7][k], D3[0], D3[1], |d| with_buf(|b| obj_del_pick(d, 1, 1, p == 1, b)))));
+
+fn cdoc(k: usize, f: impl Fn(&B)) {
+    match k {
+        0 => f(&B::build(&arr(&[leaf(K_NUM, 2), leaf(K_STR, 1)]))),
+        1 => f(&B::build(&arr(&[]))),
+        2 => f(&B::build(&obj(&[1], &[leaf(K_NUM, 9)]))),
+        3 => f(&B::build(&obj(&[], &[]))),
+        4 => f(&B::build(&leaf(K_NUM, 2))),
+        5 => f(&B::build(&leaf(K_NULL, 0))),
+        _ => f(&B::build(&obj(&[1, 2], &[leaf(K_NUM, 2), arr(&[leaf(K_NULL, 0)])]))),
+    }
+}
+//@ props: C06, C07
+//@ timeout: 1800
+//@ harness: c06_concat_0, c06_concat_1, c06_concat_2, c06_concat_3, c06_concat_4, c06_concat_5, c06_concat_6
+//@ desc: concat over all 7x7 pairs of {[n,s], [], {k:n}, {}, n, null, {k:n,kk:[null]}}: arrays append, objects merge in key order with the right side winning (every key order/equality pattern of the symbolic keys), anything else is wrapped into an array — including empty containers on either side
+//@ fns: concat, concat_jsonb, ArrayBuilder::build_into, ObjectBuilder::build_into, write_entry, iterate_array, iterate_object_entries
+//@ bounds: <= 2 elements/members per side
+//@ stubs: parse_value, from_slice -> panic | drop_in_place -> no-op
+harness!(c06_concat_0, split1(7, |j| cdoc(0, |a| cdoc(j, |b| with_buf(|buf| concat_check(a, b, buf))))));
+harness!(c06_concat_1, split1(7, |j| cdoc(1, |a| cdoc(j, |b| with_buf(|buf| concat_check(a, b, buf))))));
+harness!(c06_concat_2, split1(7, |j| cdoc(2, |a| cdoc(j, |b| with_buf(|buf| concat_check(a, b, buf))))));
+harness!(c06_concat_3, split1(7, |j| cdoc(3, |a| cdoc(j, |b| with_buf(|buf| concat_check(a, b, buf))))));
+harness!(c06_concat_4, split1(7, |j| cdoc(4, |a| cdoc(j, |b| with_buf(|buf| concat_check(a, b, buf))))));
+harness!(c06_concat_5, split1(7, |j| cdoc(5, |a| cdoc(j, |b| with_buf(|buf| concat_check(a, b, buf))))));
+harness!(c06_concat_6, split1(7, |j| cdoc(6, |a| cdoc(j, |b| with_buf(|buf| concat_check(a, b, buf))))));
+
+fn sdoc(k: usize, f: impl Fn(&B)) {
+    let nul = leaf(K_NULL, 0);
+    let n = leaf(K_NUM, 2);
+    match k {
+        0 => f(&B::build(&obj(&[1, 2], &[nul, n]))),
+        1 => f(&B::build(&obj(&[1, 1, 2], &[n, nul, obj(&[1], &[nul])]))),
+        2 => f(&B::build(&arr(&[nul, obj(&[1, 2], &[nul, n]), n]))),
+        3 => f(&B::build(&arr(&[arr(&[obj(&[1, 1], &[nul, n])])]))),
+        4 => f(&B::build(&obj(&[1], &[arr(&[nul, obj(&[1], &[nul])])]))),
+        5 => f(&B::build(&nul)),
+        6 => f(&B::build(&arr(&[]))),
+        _ => f(&B::build(&obj(&[2], &[obj(&[1, 2], &[obj(&[1], &[nul]), leaf(K_STR, 1)])]))),
+    }
+}
+//@ props: C06, C07
+//@ timeout: 1800
+//@ harness: c06_strip_a, c06_strip_b
+//@ desc: strip_nulls on {k:null,kk:n}, {a:n,b:null,cc:{j:null}}, [null,{k:null,kk:n},n], [[{a:null,b:n}]] (array inside array), {k:[null,{j:null}]}, null, [], {kk:{a:{j:null},bb:s}} (depth 3): null-valued object members are removed at every depth, nulls in arrays stay
+//@ fns: strip_nulls, strip_nulls_jsonb, strip_nulls_array, strip_nulls_object, ArrayBuilder::push_array, ArrayBuilder::push_object, ObjectBuilder::push_array, ObjectBuilder::push_object, ArrayBuilder::build_into, ObjectBuilder::build_into, write_entry
+//@ bounds: depth <= 3
+//@ stubs: parse_value, from_slice -> panic | drop_in_place -> no-op
+harness!(c06_strip_a, split1(4, |k| sdoc(k, |d| with_buf(|b| strip_check(d, b)))));
+harness!(c06_strip_b, split1(4, |k| sdoc(4 + k, |d| with_buf(|b| strip_check(d, b)))));
+
+//@ props: C06, C07
+//@ timeout: 1800
+//@ harness: c06_build
+//@ desc: build_array from three parts and build_object from two parts (keys given in increasing order), parts being a number, a string, an array or an object: the result is the README encoding of the array/object of those parts
+//@ fns: build_array, build_object
+//@ bounds: 3 / 2 parts
+//@ stubs: parse_value, from_slice -> panic | drop_in_place -> no-op
+//@ outside: build_object with keys not in increasing order (it writes members in the given order, so the caller must sort) | duplicate keys
+harness!(c06_build, split2(3, 2, |i, j| new_doc(i, |a| new_doc(2 + j, |b| new_doc(0, |c| with_buf(|buf| build_check(a, b, c, buf)))))));
+
+fn kdoc(k: usize, f: impl Fn(&B)) {
+    let n = leaf(K_NUM, 2);
+    let s = leaf(K_STR, 1);
+    match k {
+        0 => f(&B::build(&arr(&[n, s, leaf(K_NULL, 0)]))),
+        1 => f(&B::build(&arr(&[arr(&[n, s]), n]))),
+        2 => f(&B::build(&arr(&[obj(&[1], &[n]), s]))),
+        3 => f(&B::build(&obj(&[1, 2], &[n, s]))),
+        4 => f(&B::build(&obj(&[1], &[arr(&[n, s])]))),
+        5 => f(&B::build(&obj(&[1, 1], &[obj(&[1], &[n]), s]))),
+        _ => f(&B::build(&n)),
+    }
+}
+//@ props: C06, C07
+//@ timeout: 1800
+//@ harness: c06_delpath_i, c06_delpath_n, c06_delpath_ii, c06_delpath_in, c06_delpath_ni, c06_delpath_nn
+//@ desc: delete_by_keypath with one- and two-element key paths ({i}, {name}, {i,j}, {i,name}, {name,i}, {name,name}; indices -5..=5, symbolic names) on [n,s,null], [[n,s],n], [{k:n},s], {k:n,kk:s}, {k:[n,s]}, {a:{j:n},b:s} and a scalar: the addressed element/member is removed (negative indices from the end), paths that do not resolve or run into/past scalars leave the document unchanged, scalars are InvalidJsonType
+//@ fns: delete_by_keypath, delete_by_keypath_jsonb, delete_jsonb_array_by_keypath, delete_jsonb_object_by_keypath, ArrayBuilder::push_array, ObjectBuilder::push_object
+//@ bounds: paths <= 2 elements, depth 2, indices -5..=5
+//@ stubs: parse_value, from_slice -> panic | drop_in_place -> no-op
+harness!(c06_delpath_i, split1(7, |k| kdoc(k, |d| with_buf(|b| del_keypath(d, 0, b)))));
+harness!(c06_delpath_n, split1(7, |k| kdoc(k, |d| with_buf(|b| del_keypath(d, 1, b)))));
+harness!(c06_delpath_ii, split1(3, |k| kdoc(k, |d| with_buf(|b| del_keypath(d, 2, b)))));
+harness!(c06_delpath_in, split1(3, |k| kdoc(k, |d| with_buf(|b| del_keypath(d, 3, b)))));
+harness!(c06_delpath_ni, split1(3, |k| kdoc(3 + k, |d| with_buf(|b| del_keypath(d, 4, b)))));
+harness!(c06_delpath_nn, split1(3, |k| kdoc(3 + k, |d| with_buf(|b| del_keypath(d, 5, b)))));
+
+//@ props: C06
+//@ timeout: 300
+//@ expect: twin
+//@ desc: vacuity twin: concat of two arrays claimed to fail — must be refuted
+//@ fns: concat
+#[kani::proof]
+#[kani::unwind(100)]
+#[kani::stub(crate::parser::parse_value, no_parse_value)]
+#[kani::stub(crate::de::from_slice, no_from_slice)]
+#[kani::stub(std::ptr::drop_in_place, noop_drop)]
+fn c06_twin_must_fail() {
+    let a = B::build(&arr(&[leaf(K_NUM, 2)]));
+    let mut buf = Vec::new();
+    assert!(concat(a.bytes(), a.bytes(), &mut buf).is_err(), "TWIN: deliberately false");
+}
